@@ -1,4 +1,5 @@
 //! vseq: the sequential exploration engine (C01 C02 C03 C04 C05 C07 C08 C12 C13 C14 C17 C18).
+mod histcheck;
 mod reg;
 mod sread;
 mod sweep;
@@ -32,11 +33,31 @@ fn violation_from_json(j: &Value) -> (Vec<String>, vcommon::Violation) {
     )
 }
 
-/// child process: sweeps the entries `pos % n == k` single-threaded, streaming results
-fn sweep_child(thorough: bool, k: usize, n: usize, resume: (i64, u64)) -> ! {
+/// which entries a property's exploration iterates over, and what one item does
+fn job_entries(prop: &str, thorough: bool) -> Vec<reg::Entry> {
+    match prop {
+        "C03" | "C18" => {
+            let mut v = reg::family("hist");
+            if thorough {
+                v.extend(reg::family("hist_thorough"));
+            }
+            v
+        }
+        _ => {
+            let mut v = reg::all(thorough);
+            v.extend(reg::family("hist"));
+            v
+        }
+    }
+}
+
+/// child process: explores the items `pos % n == k` single-threaded, streaming results
+fn job_child(prop: &str, thorough: bool, k: usize, n: usize, resume: (i64, u64)) -> ! {
     vcommon::child::install_crash_handler();
-    let entries = reg::all(thorough);
-    for (pos, e) in entries.iter().enumerate() {
+    let entries = job_entries(prop, thorough);
+    let hist = if matches!(prop, "C03" | "C18") { Some(histcheck::Hist::new(thorough, &entries)) } else { None };
+    let items = hist.as_ref().map(|h| h.nodes.len()).unwrap_or(entries.len());
+    for pos in 0..items {
         if pos % n != k || (pos as i64) < resume.0 {
             continue;
         }
@@ -49,19 +70,25 @@ fn sweep_child(thorough: bool, k: usize, n: usize, resume: (i64, u64)) -> ! {
             sno: 0,
             emit: &mut emit,
         };
-        sweep::sweep_entry(e, thorough, &ALL_CONTAINERS, &mut d, &mut st);
+        let sample;
+        if let Some(h) = &hist {
+            histcheck::hist_item(h, pos, prop, thorough, &mut d, &mut st);
+            let nd = &h.nodes[pos];
+            sample = json!({"node": nd.ty.describe(), "version": nd.depth,
+                "path": vmodel::hist::path_to(&h.nodes, pos).iter().filter_map(|i| h.nodes[*i].edit.as_ref().map(|e| e.label())).collect::<Vec<_>>()});
+        } else {
+            let e = &entries[pos];
+            sweep::sweep_entry(e, thorough, &ALL_CONTAINERS, &mut d, &mut st);
+            sample = json!({"type": e.ty.describe(), "id": e.id(), "versions": e.ty.max_version() + 1,
+                "first_value": vmodel::values::values(&e.ty, 8).first().map(valjson::to_json)});
+        }
         println!("T {}", json!(st.0));
-        println!(
-            "X {}",
-            json!({"type": e.ty.describe(), "id": e.id(), "versions": e.ty.max_version() + 1,
-                "first_value": vmodel::values::values(&e.ty, 8).first().map(valjson::to_json)})
-        );
+        println!("X {}", sample);
     }
     std::process::exit(0)
 }
 
 fn run_sweep(run: &mut Run, prop: &'static str) -> Map<String, Value> {
-    let thorough = run.tier == Tier::Thorough;
     let mut stats = sweep::Stats::default();
     let base = vec![prop.to_string(), "--tier".to_string(), run.tier.name().to_string()];
     let run_cell = std::sync::Mutex::new((&mut *run, &mut stats, 0u64));
@@ -99,7 +126,7 @@ fn run_sweep(run: &mut Run, prop: &'static str) -> Map<String, Value> {
             // a crash belongs to the round-trip property, and to the packed-path property when
             // it happened in a bulk context
             let bulk = case["context"].as_str() != Some("Single");
-            if !(prop == "C01" || (prop == "C04" && bulk)) {
+            if !(prop == "C01" || prop == "C03" || prop == "C18" || (prop == "C04" && bulk)) {
                 return;
             }
             g.0.violation(vcommon::Violation {
@@ -144,7 +171,7 @@ fn main() {
         let resume_pos: i64 = args.extra.iter().position(|a| a == "--resume-after").map(|j| args.extra[j + 1].parse().unwrap()).unwrap_or(-1);
         let resume_sno: u64 = args.extra.iter().position(|a| a == "--resume-sno").map(|j| args.extra[j + 1].parse().unwrap()).unwrap_or(0);
         match prop {
-            "C01" | "C02" | "C04" | "C12" => sweep_child(args.tier == Tier::Thorough, k, n, (resume_pos, resume_sno)),
+            "C01" | "C02" | "C04" | "C12" | "C03" | "C18" => job_child(prop, args.tier == Tier::Thorough, k, n, (resume_pos, resume_sno)),
             _ => vcommon::machinery_error("no child mode for this property"),
         }
     }
@@ -159,6 +186,18 @@ fn main() {
             };
             cov.insert("rule".into(), json!(rule));
             cov.insert("distinct_nontrivial".into(), nontrivial);
+            cov
+        }
+        "C03" | "C18" => {
+            let mut cov = run_sweep(&mut run, prop);
+            let (rule, key) = if prop == "C03" {
+                ("state = (history node N, ancestor A on its path, value of A, container); non-trivial = A is a strict ancestor (at least one edit between the versions)", "C03_cross_version_states")
+            } else {
+                ("state = (history node N, strict ancestor A, value of N representable at A's version); every state crosses at least one edit", "C18_states")
+            };
+            cov.insert("rule".into(), json!(rule));
+            let nt = cov.get(key).cloned().unwrap_or(json!(0));
+            cov.insert("distinct_nontrivial".into(), nt);
             cov
         }
         other => vcommon::machinery_error(&format!("vseq does not serve property {}", other)),
@@ -198,6 +237,36 @@ fn replay(run: &mut Run, prop: &'static str, path: &std::path::Path) -> ! {
                 sweep::check_single(e, ver, &vals[0], &c, &mut out, &mut st);
             } else {
                 sweep::check_bulk(e, ver, ctx, &vals, &mut out, &mut st);
+            }
+            for f in out {
+                if f.props.contains(&prop) {
+                    println!("REPLAY-FAIL oracle={} {}", f.v.oracle, f.v.summary);
+                    run.violation(f.v);
+                }
+            }
+        }
+        Some(kind @ ("hist_load" | "hist_write_old")) => {
+            let mut entries = reg::family("hist");
+            let mut thorough = false;
+            #[cfg(feature = "thorough")]
+            {
+                entries.extend(reg::family("hist_thorough"));
+                thorough = true;
+            }
+            let h = histcheck::Hist::new(thorough, &entries);
+            let find = |name: &str| h.nodes.iter().position(|n| n.ty.rust() == name).unwrap_or_else(|| vcommon::machinery_error(&format!("replay: node {} not in the history tree of this tier", name)));
+            let node = find(case["node_type"].as_str().unwrap_or(""));
+            let anc = find(case["ancestor_type"].as_str().unwrap_or(""));
+            let val = valjson::from_json(&case["value"]);
+            let mut out = vec![];
+            let mut st = sweep::Stats::default();
+            vcommon::child::install_crash_handler();
+            vcommon::child::set_state("replay");
+            if kind == "hist_load" {
+                histcheck::check_load(&h, node, anc, &val, &[Container::Plain, Container::NoSchema, Container::Bare], &mut out, &mut st);
+                histcheck::check_load_bulk(&h, node, anc, &[val.clone(), val.clone()], &mut out, &mut st);
+            } else {
+                histcheck::check_write_old(&h, node, anc, &val, &val, &mut out, &mut st);
             }
             for f in out {
                 if f.props.contains(&prop) {
